@@ -24,7 +24,8 @@ type c04Input struct {
 	Agreed []JCR  `json:"agreed"`
 }
 type c04Impl struct {
-	Reports [][]JCR `json:"reports"`
+	Reports [][]JCR `json:"reports"`           // the returned reports, decoded from their bytes
+	Encoded [][]JCR `json:"encoded,omitempty"` // what the encoder was handed, call by call
 	Err     string  `json:"err,omitempty"`
 	NReports int    `json:"nreports"`
 }
@@ -143,12 +144,22 @@ func c04Run(t *testing.T, in c04Input) c04Impl {
 	}
 	reports, err := node.Plugin.Reports(context.Background(), 7, raw)
 	calls := node.Enc.Take()
-	impl := c04Impl{NReports: len(reports), Reports: [][]JCR{}}
+	impl := c04Impl{NReports: len(reports), Reports: [][]JCR{}, Encoded: [][]JCR{}}
 	if err != nil {
 		impl.Err = err.Error()
 	}
+	// what the encoder was handed, in call order …
 	for _, c := range calls {
-		impl.Reports = append(impl.Reports, toJCRs(c))
+		impl.Encoded = append(impl.Encoded, toJCRs(c))
+	}
+	// … and what libocr gets back: the returned report bytes, decoded (the fake encoder's bytes are JSON)
+	for _, rep := range reports {
+		var rs []ocr2keepers.CheckResult
+		if err := json.Unmarshal(rep.ReportWithInfo.Report, &rs); err != nil {
+			impl.Err = "returned report bytes are not what the encoder produced: " + err.Error()
+			continue
+		}
+		impl.Reports = append(impl.Reports, toJCRs(rs))
 	}
 	return impl
 }
